@@ -1709,8 +1709,13 @@ class Compiler:
 
         self._slots.add(name)
 
+        # The global definitions made by the filler are visible in the
+        # rest of the macro.
         orelse = template(
-            "SLOT(__stream, econtext.copy(), rcontext)",
+            "__globals = rcontext.copy()\n"
+            "SLOT(__stream, econtext.copy(), rcontext)\n"
+            "econtext.update([(k, v) for (k, v) in rcontext.items() "
+            "if __globals.get(k, __marker) is not v])",
             SLOT=name)
         test = ast.Compare(
             left=load(name),
